@@ -64,6 +64,7 @@ class Scheduler:
         self.switch_log = []
         self.tool = None
         self.first_seen = {}     # (file, function, line) -> global step of its first execution
+        self.seen_steps = {}     # (file, function, line) -> global steps of its first executions (up to 12)
 
     # -- monitoring ------------------------------------------------------------------------------
     def _install(self):
@@ -97,6 +98,9 @@ class Scheduler:
             loc = (code.co_filename, code.co_name, line)
             if loc not in self.first_seen:
                 self.first_seen[loc] = self.steps
+            lst = self.seen_steps.setdefault(loc, [])
+            if len(lst) < 12:
+                lst.append(self.steps)
             tgt = self.switches.get(self.steps)
             if tgt is None and self.loc_plan and self.loc_plan[0][0] == me:
                 want = self.loc_plan[0][1]
